@@ -48,6 +48,9 @@ def main():
         m = json.load(open(os.path.join(V, "seeded", sid, "meta.json")))
         det = m["detected_by"]
         own = m["property"]
+        if det == ["none"]:
+            print(f"NOT-CAUGHT(documented exclusion) {sid}", flush=True)
+            continue
         primary = own if own in det else det[0]
         if only and primary not in only:
             continue
